@@ -305,7 +305,8 @@ def layouts(tier):
     N = 6
     out = []
     flat_cfg_quick = [('int16', 0, 3), ('float32', 3, 2), ('float64', 8, 1), ('uint8', 5, 3)]
-    flat_cfg_thorough = [(dt, off, nch) for dt in ('int16', 'float32', 'float64') for off in (0, 3, 8) for nch in (1, 3)] + \
+    flat_cfg_thorough = [(dt, off, nch) for i, dt in enumerate(('int16', 'float32', 'float64')) for j, off in enumerate((0, 3, 8))
+                         for nch in ((1, 3) if dt == 'int16' else ((3,) if (i + j) % 2 else (1,)))] + \
         [('uint8', 5, 2), ('int32', 1, 2), ('>i2', 2, 3), ('uint16', 0, 4), ('int64', 16, 1), ('<f8', 7, 2)]
     for n in range(1, N + 1):
         comps = list(compositions(n, 3))
@@ -338,7 +339,7 @@ def enumerate_cases(ctx):
     ctx.scope('layouts: every composition of n <= %d into <= 3 parts (flat: header offsets/dtypes/channel counts %s; '
               'extensions .bin/.dat/.raw/.mda, str and Path, bare path and list), single-file npy / in-memory array / '
               'cbin (chunk lengths 1..4 and > n, opened by path and as mtscomp.Reader); attributes checked on each'
-              % (N, 'rotated pairwise in quick' if quick else '{int16,float32,float64} x {0,3,8} x {1,3} channels + uint8/int32/>i2/uint16/int64/<f8'))
+              % (N, 'rotated pairwise in quick' if quick else '{int16,float32,float64} x {0,3,8} (int16: 1 and 3 channels, others alternating) + uint8/int32/>i2/uint16/int64/<f8'))
     ctx.scope('index expressions per layout (exhaustive): every int in [-n,n)%s; every slice with start/stop in [-n,n] or None, '
               'step None or 1 (both on int16 layouts in thorough, else one of the two by rotation), selecting >= 1 row; every strictly increasing index list AND int64 array of length <= %s '
               '(not on cbin); x column selectors {none, slice, reversed slice, increasing list, permutation%s}'
